@@ -45,6 +45,8 @@ def run(ctx):
     header_edit(ctx, ht, f)
     helpers = {f.qualname} | {q for q in G.reach(f) if P.functions[q].cls is f.cls}
     check_footer(ctx, ht, 'C12.3', select=lambda g: g.qualname in helpers)
+    from .c08 import mask_use
+    mask_use(ctx, 'C12.3')
     ceilings(ctx, f)
     checked_reads(ctx, f)
     symbolic(ctx, f)
